@@ -629,6 +629,75 @@ def run(ctx):
                           {"fn": "ec.verify", "what": what}, force=True)
 
         # ------------------------------------------------------------------
+        # every PARAMETER an algorithm fixes, on signatures made OUTSIDE the library (pyca / hmac
+        # directly): accepted iff every parameter is the RFC's (RFC 7518 3.2, 3.3, 3.5)
+        # ------------------------------------------------------------------
+        from cryptography.hazmat.primitives.asymmetric import padding as _pad
+        import hmac as _hm2, hashlib as _hl2
+        HC = {"sha256": _hs.SHA256, "sha384": _hs.SHA384, "sha512": _hs.SHA512}
+        rsa_prv = K["rsa"].private_key
+        rsa_pub = J.pubkey_of(K["rsa"])
+
+        def ext_token(name, signer):
+            hdr = {"alg": name}
+            hs_ = b64u(json.dumps(hdr, separators=(",", ":")).encode())
+            ps_ = b64u(b"param-matrix")
+            si = hs_ + b"." + ps_
+            sig = signer(si)
+            return hdr, si + b"." + b64u(sig), {"payload": ps_.decode(), "protected": hs_.decode(), "signature": b64u(sig).decode()}
+
+        def run_param(name, signer, good, what, keyobj, json_too):
+            hdr, tok, flat = ext_token(name, signer)
+            R.des_compact(tok, keyobj, [name], not good, (hdr, b"param-matrix"), "valid" if good else what)
+            if json_too:
+                R.des_json(flat, keyobj, [name], not good, ([hdr], b"param-matrix"), "valid" if good else what)
+                R.des_json({"payload": flat["payload"], "signatures": [{"protected": flat["protected"], "signature": flat["signature"]}]},
+                           keyobj, [name], not good, ([hdr], b"param-matrix"), "valid" if good else what, coq=False)
+
+        for name, hn in (("PS256", "sha256"), ("PS384", "sha384"), ("PS512", "sha512")):
+            hl = HC[hn].digest_size
+            for salt in (0, 8, hl - 1, hl, hl + 1, "max"):
+                for mgf in HC:
+                    for mh in HC:
+                        if quick and not (mgf == hn and mh == hn) and rng.random() < 0.7:
+                            continue
+                        sl = _pad.PSS.MAX_LENGTH if salt == "max" else salt
+                        good = (salt == hl and mgf == hn and mh == hn)
+                        signer = (lambda si, _m=mgf, _s=sl, _h=mh: rsa_prv.sign(si, _pad.PSS(mgf=_pad.MGF1(HC[_m]()), salt_length=_s), HC[_h]()))
+                        run_param(name, signer, good, "pss-params:%s:salt=%s:mgf=%s:hash=%s" % (name, salt, mgf, mh), rsa_pub, mgf == hn and mh == hn)
+            # a PKCS1-v1_5 signature under a PS* name
+            run_param(name, lambda si, _h=hn: rsa_prv.sign(si, _pad.PKCS1v15(), HC[_h]()), False, "pss-params:%s:pkcs1v15-instead" % name, rsa_pub, False)
+        for name, hn in (("RS256", "sha256"), ("RS384", "sha384"), ("RS512", "sha512")):
+            for mh in HC:
+                run_param(name, lambda si, _h=mh: rsa_prv.sign(si, _pad.PKCS1v15(), HC[_h]()), mh == hn, "rsa-params:%s:hash=%s" % (name, mh), rsa_pub, True)
+            run_param(name, lambda si, _h=hn: rsa_prv.sign(si, _pad.PSS(mgf=_pad.MGF1(HC[_h]()), salt_length=HC[_h].digest_size), HC[_h]()),
+                      False, "rsa-params:%s:pss-instead" % name, rsa_pub, False)
+        for name, hn, kn in (("HS256", "sha256", "oct32"), ("HS384", "sha384", "oct64"), ("HS512", "sha512", "oct64")):
+            kb = K[kn].raw_value
+            for mh in HC:
+                full = len(_hm2.new(kb, b"", getattr(_hl2, mh)).digest())
+                for cut in (full, 16, 31, full - 1):
+                    good = (mh == hn and cut == full)
+                    run_param(name, lambda si, _h=mh, _c=cut: _hm2.new(kb, si, getattr(_hl2, _h)).digest()[:_c], good,
+                              "hmac-params:%s:hash=%s:len=%d" % (name, mh, cut), K[kn], cut == full)
+        from cryptography.hazmat.primitives.asymmetric.utils import encode_dss_signature as _eds
+        for name, (crv, hn) in ES.items():
+            k = K[ECK[crv]]
+            L = (k.curve_key_size + 7) // 8
+
+            def ecs(si, form, _k=k, _h=hn, _L=L):
+                r_, s_ = _dds(_k.private_key.sign(si, _ec.ECDSA(HC[_h]())))
+                if form == "raw":
+                    return r_.to_bytes(_L, "big") + s_.to_bytes(_L, "big")
+                if form == "der":
+                    return _eds(r_, s_)
+                if form == "long":
+                    return r_.to_bytes(_L + 1, "big") + s_.to_bytes(_L + 1, "big")
+                return (r_.to_bytes(_L, "big") + s_.to_bytes(_L, "big"))[1:]
+            for form in ("raw", "der", "long", "short"):
+                run_param(name, lambda si, _f=form: ecs(si, _f), form == "raw", "ecdsa-encoding:%s:%s" % (name, form), J.pubkey_of(k), form != "raw")
+
+        # ------------------------------------------------------------------
         # wrong keys that SHARE METADATA with the right key, over HISTORIES: after a successful
         # verification with key A, the same token with key B (same kid / alg / use, other
         # material) must still be rejected; A re-imported must still verify
